@@ -73,7 +73,7 @@ impl JournalBatchReader {
 }
 // ---- meta keyspace and dictionary
 pub struct StrView { pub s: Ghost<Seq<u8>> }
-pub struct MetaKeyspace { pub dummy: u8 }
+pub struct MetaKeyspace { pub inner: AnyTree }   // the meta keyspace's own tree is tree 0 (keyspaces/0)
 impl MetaKeyspace {
     // ASSUMED contract of MetaKeyspace::resolve_id (not under contract): reads the 'n'+id row of the meta tree
     #[verifier::external_body]
@@ -81,14 +81,6 @@ impl MetaKeyspace {
         ensures *final(w) == *old(w),
             r matches Ok(Some(n)) ==> old(w).meta_names.dom().contains(id) && n.s@ == old(w).meta_names[id],
             r matches Ok(None) ==> !old(w).meta_names.dom().contains(id),
-    { unimplemented!() }
-}
-impl MetaKeyspace {
-    // MetaKeyspace::get_highest_seqno = self.inner.get_highest_seqno() (one-line accessor); the meta tree is tree 0
-    #[verifier::external_body]
-    pub fn get_highest_seqno(&self, Tracked(w): Tracked<&mut World>) -> (r: Option<u64>)
-        requires old(w).trees.dom().contains(0),
-        ensures *final(w) == *old(w), r == highest(old(w).trees[0]), r is Some ==> r->Some_0 < u64::MAX,
     { unimplemented!() }
 }
 pub struct AnyTree { pub id: Ghost<u64> }
